@@ -8,7 +8,7 @@
  *   PLATFORM file.xml | CAT name | HVAR name | LVAR name | MARK type value | HSTATE state value
  *   ACTOR name hostidx start_date   followed by one op per line, closed by END
  *   ops: sleep d | exec flops cat | pexec flops bytes | send mbox bytes cat | dsend mbox bytes | recv mbox |
- *        sendt mbox bytes timeout | recvt mbox timeout | migrate hostidx | suspend actor | resume actor | kill actor |
+ *        sendt mbox bytes timeout | recvt mbox timeout | migrate hostidx | rmigrate actor hostidx | suspend actor | resume actor | kill actor |
  *        hvar set|add|sub var value | lvar set|add|sub linkidx var value | mark type value |
  *        hstate push|pop|set state value | vm create|start|suspend|resume|destroy name hostidx | yield
  */
@@ -79,7 +79,11 @@ static void run_ops(const ActorSpec& spec)
         sg4::Mailbox::by_name(w[1])->get<char>(std::stod(w[2]));
       else if (w[0] == "migrate")
         sg4::this_actor::set_host(host_of(w[1]));
-      else if (w[0] == "suspend" || w[0] == "resume" || w[0] == "kill") {
+      else if (w[0] == "rmigrate") { // migrate another actor, whatever it is doing
+        auto it = by_name.find(w[1]);
+        if (it != by_name.end())
+          it->second->set_host(host_of(w[2]));
+      } else if (w[0] == "suspend" || w[0] == "resume" || w[0] == "kill") {
         auto it = by_name.find(w[1]);
         if (it != by_name.end()) {
           if (w[0] == "suspend")
@@ -108,7 +112,9 @@ static void run_ops(const ActorSpec& spec)
       } else if (w[0] == "mark")
         simgrid::instr::mark(w[1], w[2]);
       else if (w[0] == "hstate") {
-        auto h = sg4::this_actor::get_host()->get_name();
+        // on the host where the actor was created (not where it may have migrated to): a push and its pop must
+        // address the same container
+        auto h = hosts[spec.host % hosts.size()]->get_name();
         if (w[1] == "push")
           TRACE_host_push_state(h.c_str(), w[2].c_str(), w[3].c_str());
         else if (w[1] == "pop")
